@@ -96,13 +96,16 @@ func (r *returnsRunner) execute(cmd *cobra.Command, args []string) error {
 		AccountFilter:   predicate.ByName[*model.Account](r.accounts.Regex()),
 		CommodityFilter: predicate.ByName[*model.Commodity](r.commodities.Regex()),
 	}
+	// Perf registers the period end dates with the builder, which must happen
+	// before the journal is built.
+	perf := performance.Perf(j, partition)
 	err = j.Build().Process(
 		journal.ComputePrices(valuation),
 		check.Check(),
 		journal.Valuate(reg, valuation),
 		calculator.ComputeValues(),
 		calculator.ComputeFlows(),
-		performance.Perf(j, partition),
+		perf,
 	)
 	return err
 }
